@@ -232,7 +232,7 @@ impl Availability {
     #[verifier::external_body]
     pub fn default() -> (r: Availability) ensures r@ == Set::<usize>::empty() { unimplemented!() }
 
-//@extract file=actix-server/src/availability.rs item="impl Availability / fn set_available_all" props=C02,C04 name=availability::set_available_all
+//@extract file=actix-server/src/availability.rs item="impl Availability / fn set_available_all" props=C02,C04,C03 name=availability::set_available_all
 //@spec
     requires forall|i: int| 0 <= i < handles@.len() ==> (#[trigger] handles@[i]).spec_idx() < 512,
     ensures
@@ -425,7 +425,7 @@ pub fn vec_take_first<T>(v: &mut Vec<T>) -> (r: T)
 
 // ===================================================================== contracts on the real functions
 impl Accept {
-//@extract file=actix-server/src/accept.rs item="impl Accept / fn start" ret=r props=C01,C04,C05,C08 name=accept::start inline_thread_body str_lits closures=1
+//@extract file=actix-server/src/accept.rs item="impl Accept / fn start" ret=r props=C01,C04,C05,C08,C03 name=accept::start inline_thread_body str_lits closures=1
 //@replace pattern="let mut r9_a = Vec::new(); let mut r9_b = Vec::new();" rule=R9u
 let mut r9_a: Vec<WorkerHandleAccept> = Vec::new(); let mut r9_b: Vec<WorkerHandleServer> = Vec::new();
 //@replace pattern="let mut r9_out = Vec::new();" rule=R9l
@@ -451,7 +451,7 @@ let mut r9_out: Vec<BoxedFactory> = Vec::new();
         decreases builder.factories@.len() - r9_n,
 //@end
 
-//@extract file=actix-server/src/accept.rs item="impl Accept / fn new_with_sockets" ret=r props=C01,C04,C05,C08 name=accept::new_with_sockets sig_replace="Box<[ServerSocketInfo]>=>Vec<ServerSocketInfo>"
+//@extract file=actix-server/src/accept.rs item="impl Accept / fn new_with_sockets" ret=r props=C01,C04,C05,C08,C03 name=accept::new_with_sockets sig_replace="Box<[ServerSocketInfo]>=>Vec<ServerSocketInfo>"
 //@replace pattern="let mut r9_out = Vec::new();" rule=R9t
 let mut r9_out: Vec<ServerSocketInfo> = Vec::new();
 //@spec
@@ -491,7 +491,7 @@ let mut r9_out: Vec<ServerSocketInfo> = Vec::new();
 
 impl Accept {
 
-//@extract file=actix-server/src/accept.rs item="impl Accept / fn next" ret=r props=C04,C08,C06
+//@extract file=actix-server/src/accept.rs item="impl Accept / fn next" ret=r props=C04,C08,C06,C01
 //@spec
     requires
         self.next < self.handles@.len(),
@@ -499,7 +499,7 @@ impl Accept {
         *r == self.handles@[self.next as int],
 //@end
 
-//@extract file=actix-server/src/accept.rs item="impl Accept / fn set_next" props=C04,C06
+//@extract file=actix-server/src/accept.rs item="impl Accept / fn set_next" props=C04,C06,C01
 //@spec
     requires
         old(self).next < old(self).handles@.len(),
@@ -511,7 +511,7 @@ impl Accept {
         final(self).same_ctl(old(self)),
 //@end
 
-//@extract file=actix-server/src/accept.rs item="impl Accept / fn remove_next" props=C01,C08,C06
+//@extract file=actix-server/src/accept.rs item="impl Accept / fn remove_next" props=C01,C08,C06,C04
 //@spec
     requires
         old(self).wf(),
@@ -524,7 +524,7 @@ impl Accept {
         final(self).same_ctl(old(self)),
 //@end
 
-//@extract file=actix-server/src/accept.rs item="impl Accept / fn send_connection" ret=r props=C01,C02,C04,C08,C06
+//@extract file=actix-server/src/accept.rs item="impl Accept / fn send_connection" ret=r props=C01,C02,C04,C08,C06,C03
 //@spec
     requires
         old(self).wf(),
@@ -569,7 +569,7 @@ impl Accept {
 //@end
 
 
-//@extract file=actix-server/src/accept.rs item="impl Accept / fn accept_one" props=C01,C04,C08,C06 trace_calls="send_connection?"
+//@extract file=actix-server/src/accept.rs item="impl Accept / fn accept_one" props=C01,C04,C08,C06,C02,C03 trace_calls="send_connection?"
 //@spec
     requires
         old(self).wf(),
@@ -868,7 +868,7 @@ impl Accept {
 //@end
 
 #[verifier::exec_allows_no_decreases_clause]
-//@extract file=actix-server/src/accept.rs item="impl Accept / fn handle_waker" ret=exit props=C02,C03,C04,C05,C06,C08
+//@extract file=actix-server/src/accept.rs item="impl Accept / fn handle_waker" ret=exit props=C02,C03,C04,C05,C06,C08,C01
 //@spec
     requires
         old(self).wf(),
@@ -953,7 +953,7 @@ impl Accept {
 //@end
 
 #[verifier::exec_allows_no_decreases_clause]
-//@extract file=actix-server/src/accept.rs item="impl Accept / fn poll_with" props=C05,C06 intended_panics noreach trace_calls="poll.poll,process_timeout"
+//@extract file=actix-server/src/accept.rs item="impl Accept / fn poll_with" props=C05,C06,C01,C03 intended_panics noreach trace_calls="poll.poll,process_timeout"
 //@spec
     requires
         old(self).wf(),
